@@ -13,7 +13,7 @@ pub fn def() -> PropDef {
         level: "exploration",
         profile,
         oracle: |_cfg| Box::new(C12::default()),
-        quick_runs: 24_000,
+        quick_runs: 60_000,
         thorough_runs: 600_000,
         panic_is_violation: false,
         rule: "run = seeded multi-replica history with save / save_incremental / save_after at arbitrary points building an append-only file per replica; after every write the concatenation of the pieces must load to the writer's state, and a follower equal to the writer at an earlier piece, fed the later pieces through load_incremental in a shuffled order with duplicates, must become equal; feeding them again must change nothing; non-trivial = file has >= 3 pieces and the follower started before the last two; distinct by digest of the piece layout",
